@@ -62,7 +62,7 @@ def dot_like(t):
         a, b = seqdesc(t[2][0]), seqdesc(t[2][1])
         if a and b and a[0] == b[0]:
             return a[0], T.mul(a[1], b[1])
-    if t[0] == "call" and t[1] in ("numpy.sum", "sum") and len(t[2]) == 1:
+    if t[0] == "call" and t[1] == "sum" and len(t[2]) == 1:
         inner = t[2][0]
         r = elementwise(inner)
         if r:
